@@ -1050,3 +1050,23 @@ Proof.
   apply orb_true_iff in He. destruct He as [He|He]; [left|now right].
   unfold user_is_reader, get_pud in He. now rewrite Hp in He.
 Qed.
+
+(* the sessions whose copy was dropped are detached by the same publish, nobody else is *)
+Lemma overflow_detached st px q a c p st' :
+  publish st px = (PAccepted q a c p, st') ->
+  q = (st_lastid st + 1)%Z /\ c = fanout_all st px /\ p = push_rcpt st /\ st_lastid st' = q /\
+  forall k, In k (map fst (st_sess st')) <-> In k (map fst (st_sess st)) /\ ~ In k (overflowed (fanout_all st px)).
+Proof.
+  intros H. destruct (accepts st px) eqn:Ea.
+  - rewrite (publish_accepted st px Ea) in H. inv H.
+    destruct (fold_drop_sessions (overflowed (fanout_all st px)) (set_lastid (st_lastid st + 1)%Z st)) as [_ [F2 [_ F4]]].
+    repeat split; auto; apply F4; assumption.
+  - destruct (publish_refused st px Ea) as [_ R]. rewrite H in R. cbn in R. destruct R as [R|[R|R]]; discriminate.
+Qed.
+
+(* what Session.expandTopicName routes to this topic: the names a publisher can have written *)
+Definition routes (st : state) (px : pubctx) : Prop :=
+  match st_kind st with
+  | KP2P => px_orig px = TP2P \/ exists p, lookup (px_author px) (st_users st) = Some p /\ px_orig px = TUsr (pu_peer p)
+  | _ => px_orig px = TGrp \/ px_orig px = TChn
+  end.
